@@ -390,7 +390,7 @@ def in_domain_line(verb, sep):
 def correspondence(ctx, budget=None):
     rng = ctx.rng
     thorough = ctx.tier == "thorough"
-    scale = budget or (6 if thorough else 1)
+    scale = budget or (20 if thorough else 1)
     loop = asyncio.new_event_loop()
     censor = real_censor()
     ctx.extra["rule"] = (
